@@ -104,10 +104,15 @@ def main(ctx, replay=None):
                 # frequencies that are not power laws, interpolated with an order different from the QHA order (3): the expected
                 # spectrum comes from an independent call of the interpolation with the configured method and order
                 kw.update(freq_curv=0.3, order=int(rng.choice([2, 4])), nv=int(rng.integers(6, 12)))
+            if kind == "sys" and n % 2 == 0:
+                kw["minimal"] = True                      # a sufficient PROPER subset of the components: the rest comes from the filling
             ds = system_dataset(rng, exports, arg, **kw) if kind == "sys" else free_dataset(rng, extra_shear=arg, **kw)
             d = wd.sub(f"case{n}")
             ds.fit_pressure_window(d)
-            sp = ds.write(d, pres={"spell": "four" if n % 6 == 1 else True} if n % 3 == 1 else None)        # every third table with other column spellings
+            pres = {"spell": "four" if n % 6 == 1 else True} if n % 3 == 1 else {}       # every third table with other column spellings
+            if n % 4 == 2:
+                pres["exponent"] = True                   # static values in exponent notation
+            sp = ds.write(d, pres=pres or None)
             datasets.append((ds, d))
             desc = {"kind": kind, "arg": arg, "nv": ds.nv, "nq": ds.nq, "nat": ds.nat, "lattice": ds.lattice, "interp": ds.interpolator,
                     "keys": ["%d%d" % k for k in ds.keys], "settings": ds.settings}
@@ -302,7 +307,10 @@ def taint(ctx, rng, datasets, prov, wd):
             if illegal:
                 ctx.violation(f"perturbing only the input class '{cls}' changed {sorted(illegal)}, which the pipeline specification makes "
                               f"independent of it", {"class": cls, "changed": sorted(changed)}, {"clause": "taint", "class": cls, "quantities": sorted(illegal)})
-            missing = MUST.get(cls, set()) - changed
+            must = MUST.get(cls, set())
+            if cls in ("freq", "weights") and ds.nq * ds.np <= 3:
+                must = set()             # a one-atom cell sampled at Gamma only has no mode that counts: nothing can change
+            missing = must - changed
             if missing:
                 ctx.violation(f"perturbing the input class '{cls}' left {sorted(missing)} unchanged", {"class": cls, "changed": sorted(changed)},
                               {"clause": "taint_must", "class": cls})
